@@ -36,6 +36,7 @@ fn main() {
         ["table", "kmer", ..] => tables::kmer(arg(&a, 2), arg(&a, 3), arg(&a, 4)),
         ["table", "minimiser", ..] => tables::minimiser(arg(&a, 2), arg(&a, 3), arg(&a, 4), arg(&a, 5), &a[6], false),
         ["table", "kmermin", ..] => tables::minimiser(arg(&a, 2), arg(&a, 3), arg(&a, 4), arg(&a, 5), &a[6], true),
+        ["trace", "minmid", ..] => traces::min_mid(arg(&a, 2), a[3] == "1"),
         ["trace", "gaps", ..] => traces::gaps(arg(&a, 2), &a[3]),
         ["trace", "iterapi", ..] => traces::iterapi(arg(&a, 2), arg(&a, 3)),
         ["trace", "kmerlong", ..] => traces::kmer_long(arg(&a, 2), arg(&a, 3), a[4] == "1"),
